@@ -130,6 +130,34 @@ def TLink (g : Graph) (m : MST) (w p : Nat) : Prop :=
 /-- joined by a tree edge, in either direction -/
 def TArc (g : Graph) (m : MST) (a b : Nat) : Prop := TLink g m a b ∨ TLink g m b a
 
+/-! ### spanning forests of minimum weight (edge sets as lists) -/
+
+/-- `a` and `b` are joined by an edge of the list -/
+def EAdj (F : List Edge) (a b : Nat) : Prop := ∃ e ∈ F, Joins e a b
+
+/-- connected through edges of the list -/
+def EConn (F : List Edge) : Nat → Nat → Prop := Reach (EAdj F)
+
+/-- total weight of an edge list -/
+def wsum (F : List Edge) : Int := (F.map (·.w)).sum
+
+/-- no repeated edge, and no edge whose ends are still connected once it is removed (no cycle) -/
+def Acyc (F : List Edge) : Prop := F.Nodup ∧ ∀ e ∈ F, ¬ EConn (F.erase e) e.a e.b
+
+/-- `e` is stored in the graph as an edge between `a` and `b`, in both adjacency lists (what `AddEdge` of the
+undirected types does) -/
+def Graph.StoredEdge (g : Graph) (e : Edge) : Prop := g.HasEdge e.a e.b e ∧ g.HasEdge e.b e.a e
+
+/-- every adjacency entry's edge is stored at both of its ends (what `AddEdge` of the undirected types does) -/
+def Graph.UStored (g : Graph) : Prop := ∀ u x, x ∈ g.adj.getD u [] → g.StoredEdge x.e
+
+/-- `F` is a spanning forest of `g`: edges of the graph, acyclic, and the ends of every edge of the graph are
+connected in `F` (so `F` connects exactly what `g` connects) -/
+structure IsSpanningForest (g : Graph) (F : List Edge) : Prop where
+  acyc : Acyc F
+  sub : ∀ f ∈ F, g.StoredEdge f
+  span : ∀ f, g.StoredEdge f → EConn F f.a f.b
+
 /-! ## executable certificates -/
 
 /-- worklist closure: marks everything reachable from the work list through arcs whose head satisfies `ok` -/
